@@ -51,6 +51,10 @@ CHECKS = {
          "exhaustively (lazy forking); future.transform runs natively on the rendered string; the oracle is the harness's own AST evaluator "
          "(| read as Union, builtin generics identified with their typing spellings, non-annotation nodes opaque), plus no-BitOr, fixpoint and "
          "unchanged-AST checks.", "4/C20", "CrossHair/z3 exhaustive enumeration of grammar derivations (choice variables), reference-evaluator oracle, native replay"),
+ "C19": ("E3 choice-symbolic: the dataclass definition (fields, default kinds, frozen/eq/order/unsafe_hash, four base kinds, user "
+         "__getstate__) and decoration histories are choice variables enumerated exhaustively by the solver; classes are synthesised "
+         "natively and instances of C and slotted(C) compared for construction, ==, ordering, hash, repr, frozen-ness, copy, pickle, "
+         "weakref, __slots__ and __dict__ absence.", "4/C19", "CrossHair/z3 exhaustive enumeration of class definitions and decoration histories (choice variables), native replay"),
 }
 NA = {
  "C17": "flat catalogue of CPython type objects compared with CPython's own issubclass/typing internals: neither side can be encoded for a solver and there is no value, shape, state or history to make symbolic (DESIGN.md section 7)",
